@@ -21,6 +21,16 @@ Lemma code_facts :
   dblocks_default = before_code ++ code_def :: skipn 5 dblocks_default /\ length before_code = 4%nat.
 Proof. repeat split; reflexivity. Qed.
 
+Lemma code_facts_of cd : dcore cd = dcore code_def ->
+  d_name cd = $"code" /\ d_openTag cd = $"<pre><code>" /\ d_closeTag cd = $"</code></pre>" /\
+  d_verify cd = DvCode /\ d_delim cd = DfClassInj /\ d_content cd = CfNone /\
+  d_expand cd = mkExpand (Some false) None None None (Some true) /\ d_openRe cd = d_openRe code_def.
+Proof.
+  intros H. destruct (dcore_fields _ _ H) as (E1 & E2 & E3 & E4 & E5 & E6 & E7 & E8).
+  destruct code_facts as (F1 & F2 & F3 & F4 & F5 & F6 & F7 & _).
+  rewrite E1, E2, E3, E5, E6, E7, E8. repeat split; assumption.
+Qed.
+
 (* ---- the closing pattern built from the fence: it matches exactly the line that is the fence ---- *)
 Lemma lit_close_shape d : re_ast (lit_close d) = RSeq (RBol false) (RSeq (rstr d) (REol false)) /\ re_groups (lit_close d) = O.
 Proof. split; reflexivity. Qed.
@@ -192,22 +202,23 @@ Section Code.
 Variable fuel : nat.
 Variable doc : str -> M str.
 
-Lemma dblock_body_code content rest s : quiet_default s -> Forall nlfree content -> ~ In fence content ->
-  dblock_body (S fuel) doc 4 code_def m_fence (content ++ fence :: rest) s =
+Lemma dblock_body_code content rest s cd : quiet_default s -> Forall nlfree content -> ~ In fence content ->
+  dcore cd = dcore code_def -> (forall d0, nth 4 (s_dblocks s) d0 = cd) ->
+  dblock_body (S fuel) doc 4 cd m_fence (content ++ fence :: rest) s =
   Ok (($"<pre><code>" ++ escape (join [10] content) ++ $"</code></pre>" ++ (match rest with [] => [] | _ => [10] end), rest), code_after s).
 Proof.
-  intros Hq Hc Hnot. pose proof Hq as (Hd & Hr & Hqt & Hp & Ho).
-  destruct code_facts as (Fname & Fopen & Fclose & Fverify & Fdelim & Fcontent & Fexp & Fsplit & Flen).
+  intros Hq Hc Hnot Hcd Hnth. pose proof Hq as (Hd & Hr & Hqt & Hp & Ho).
+  destruct (code_facts_of cd Hcd) as (Fname & Fopen & Fclose & Fverify & Fdelim & Fcontent & Fexp & Fre).
   unfold dblock_body. rewrite Fdelim.
   unfold bind at 1. cbn [grp_s grp nth m_groups m_fence]. replace (strip []) with (@nil char) by reflexivity.
   cbn [nonempty is_empty negb]. unfold bind at 1. cbn [ret]. unfold bind at 1. cbn [modify ret].
   set (s1 := set_closeRe 4 (lit_close fence) s).
-  assert (Hn4 : nth 4 (s_dblocks s1) code_def =
-                mkD (d_name code_def) (d_openTag code_def) (d_closeTag code_def) (d_openRe code_def) (lit_close fence)
-                    (d_verify code_def) (d_delim code_def) (d_content code_def) (d_expand code_def)).
-  { unfold s1, set_closeRe. cbn [s_dblocks set_dblocks]. rewrite (nth_set_closeRe (lit_close fence) code_def 4 (s_dblocks s)).
-    - rewrite Hd. reflexivity.
-    - rewrite Hd. vm_compute. lia. }
+  assert (Hn4 : nth 4 (s_dblocks s1) cd =
+                mkD (d_name cd) (d_openTag cd) (d_closeTag cd) (d_openRe cd) (lit_close fence)
+                    (d_verify cd) (d_delim cd) (d_content cd) (d_expand cd)).
+  { unfold s1, set_closeRe. cbn [s_dblocks set_dblocks]. rewrite (nth_set_closeRe (lit_close fence) cd 4 (s_dblocks s)).
+    - rewrite (Hnth cd). reflexivity.
+    - rewrite (std_length _ Hd). lia. }
   unfold bind at 1. unfold gets at 1. rewrite Hn4. cbn [d_closeRe].
   rewrite (readTo_fence fence (proj2 (proj2 (proj2 (proj2 (proj2 fence_facts))))) content rest Hc Hnot).
   unfold bind at 1. cbn [andb ret tl]. cbn [app].
@@ -217,7 +228,7 @@ Proof.
   rewrite Fcontent.
   unfold bind at 1. unfold bind at 1. cbn [ret].
   unfold bind at 1. unfold gets at 1. rewrite Hn4.
-  replace (str_eqb (d_name code_def) $"html") with false by (rewrite Fname; vm_compute; reflexivity).
+  replace (str_eqb (d_name cd) $"html") with false by (rewrite Fname; vm_compute; reflexivity).
   unfold bind at 1. cbn [ret].
   unfold bind at 1. cbn [d_openTag]. rewrite Fopen.
   assert (Hp1 : pending_empty s1) by exact Hp.
@@ -225,13 +236,13 @@ Proof.
   unfold bind at 1. unfold lift. unfold replaceInline_top, replaceInline. cbn [truthy e_macros e_spans e_specials ibind iret].
   cbn [app log_msgs bind ret].
   unfold gets at 1. unfold bind at 1. cbv beta.
-  assert (Hn4' : d_closeTag (nth 4 (s_dblocks s1) (mkD (d_name code_def) (60 :: $"pre><code>") (d_closeTag code_def) (d_openRe code_def) (lit_close fence)
-                    (d_verify code_def) (d_delim code_def) (d_content code_def) (d_expand code_def))) = $"</code></pre>").
+  assert (Hn4' : d_closeTag (nth 4 (s_dblocks s1) (mkD (d_name cd) (60 :: $"pre><code>") (d_closeTag cd) (d_openRe cd) (lit_close fence)
+                    (d_verify cd) (d_delim cd) (d_content cd) (d_expand cd))) = $"</code></pre>").
   { unfold s1, set_closeRe. cbn [s_dblocks set_dblocks]. rewrite (nth_set_closeRe (lit_close fence) _ 4 (s_dblocks s)).
-    - rewrite Hd. reflexivity.
-    - rewrite Hd. vm_compute. lia. }
+    - rewrite Hnth. cbn [d_closeTag]. exact Fclose.
+    - rewrite (std_length _ Hd). lia. }
   rewrite Hn4'.
-  replace (str_eqb (d_name code_def) $"division") with false by (rewrite Fname; vm_compute; reflexivity).
+  replace (str_eqb (d_name cd) $"division") with false by (rewrite Fname; vm_compute; reflexivity).
   cbn [andb ret bind modify]. unfold code_after. fold s1.
   destruct rest as [|r0 rest]; cbn [andb nonempty is_empty negb app]; rewrite <- ?app_assoc; cbn [app]; rewrite ?app_nil_r; reflexivity.
 Qed.
@@ -240,20 +251,22 @@ Lemma dblocks_render_code content rest s : quiet_default s -> Forall nlfree cont
   Ok ((Some ($"<pre><code>" ++ escape (join [10] content) ++ $"</code></pre>" ++ (match rest with [] => [] | _ => [10] end)), rest), code_after s).
 Proof.
   intros Hq Hc Hnot. pose proof Hq as (Hd & _).
-  destruct code_facts as (Fname & _ & _ & _ & _ & _ & _ & Fsplit & Flen).
   destruct fence_facts as (_ & _ & Fbefore & Fmatch & Fverify & _).
-  unfold dblocks_render. unfold bind at 1. unfold gets at 1.
-  assert (Elen : length (s_dblocks s) = 9%nat) by (rewrite Hd; reflexivity). rewrite Elen.
-  pose proof (dblock_loop_skip_rest (S fuel) doc fence (content ++ fence :: rest) s before_code [] (code_def :: skipn 5 dblocks_default) 5) as Sk.
-  cbn [length app] in Sk. rewrite Flen in Sk. change (4 + 5)%nat with 9%nat in Sk. change (0 + 4)%nat with 4%nat in Sk.
-  rewrite Sk; [|rewrite Hd; exact Fsplit|exact (none_of (fun d => re_search (d_openRe d) fence) _ Fbefore)].
-  cbn [dblock_loop]. unfold bind at 1. unfold gets at 1.
-  assert (En : nth_error (s_dblocks s) 4 = Some code_def) by (rewrite Hd; reflexivity).
-  rewrite En. cbn [andb]. rewrite Fmatch.
-  unfold grp0, grp_s, grp. cbn [nth m_groups m_fence fence].
-  rewrite Fname. replace (str_eqb $"code" $"paragraph") with false by reflexivity.
-  replace (tick =? 92) with false by reflexivity. fold fence. fold m_fence. rewrite Fverify. cbn [negb].
-  unfold bind at 1. rewrite (dblock_body_code content rest s Hq Hc Hnot). reflexivity.
+  destruct (std_at (s_dblocks s) 4 dummy_ddef Hd ltac:(lia)) as (pre & cd & post & Esplit & Lpre & Hcd & En & Hnth & Hpre).
+  fold code_def in Hcd. destruct (code_facts_of cd Hcd) as (Fname & _ & _ & Fv & _ & _ & _ & Fre).
+  unfold dblocks_render. unfold bind at 1. unfold gets at 1. rewrite (std_length _ Hd).
+  pose proof (dblock_loop_skip_rest (S fuel) doc fence (content ++ fence :: rest) s pre [] (cd :: post) 5) as Sk.
+  cbn [length app] in Sk. rewrite Lpre in Sk. change (4 + 5)%nat with 9%nat in Sk. change (0 + 4)%nat with 4%nat in Sk.
+  rewrite Sk; [|exact Esplit|].
+  - cbn [dblock_loop]. unfold bind at 1. unfold gets at 1.
+    rewrite En. cbn [andb]. rewrite Fre. rewrite Fmatch.
+    unfold grp0, grp_s, grp. cbn [nth m_groups m_fence fence].
+    rewrite Fname. replace (str_eqb $"code" $"paragraph") with false by reflexivity.
+    replace (tick =? 92) with false by reflexivity. fold fence. fold m_fence.
+    assert (Fverify' : db_verify cd m_fence = true) by (unfold db_verify in *; rewrite Fv; destruct code_facts as (_ & _ & _ & Fv0 & _); rewrite Fv0 in Fverify; exact Fverify).
+    rewrite Fverify'. cbn [negb].
+    unfold bind at 1. rewrite (dblock_body_code content rest s cd Hq Hc Hnot Hcd Hnth). reflexivity.
+  - intros d Hdin. destruct (Hpre d Hdin) as (d' & Hd' & -> & _). exact (none_of (fun d => re_search (d_openRe d) fence) _ Fbefore d' Hd').
 Qed.
 
 (* the document that is one fenced code block *)
@@ -306,18 +319,30 @@ Section Comment.
 Variable fuel : nat.
 Variable doc : str -> M str.
 
-Lemma dblock_body_comment content rest s : quiet_default s ->
-  (forall l, In l content -> re_search (d_closeRe comment_def) l = None) ->
-  dblock_body fuel doc 1 comment_def m_copen (content ++ cclose :: rest) s = Ok (([], rest), s).
+Lemma comment_facts_of cm : dcore cm = dcore comment_def ->
+  d_name cm = $"comment" /\ d_verify cm = DvNone /\ d_delim cm = DfNone /\
+  d_expand cm = mkExpand None None (Some true) None (Some true) /\ d_openRe cm = d_openRe comment_def /\
+  d_closeRe cm = d_closeRe comment_def.
 Proof.
-  intros Hq Hc. pose proof Hq as (Hd & Hr & Hqt & Hp & Ho).
-  destruct comment_facts as (Fname & Fverify & Fdelim & Fexp & Fg & _ & _ & _ & _ & _ & _ & Fclose).
+  intros H. destruct (dcore_fields _ _ H) as (E1 & E2 & E3 & E4 & E5 & E6 & E7 & E8).
+  destruct comment_facts as (F1 & F2 & F3 & F4 & _).
+  rewrite E1, E4, E5, E6, E8. repeat split; try assumption. apply (dcore_close _ _ H). unfold is_classinj. rewrite F3. reflexivity.
+Qed.
+
+Lemma dblock_body_comment content rest s cm : quiet_default s ->
+  (forall l, In l content -> re_search (d_closeRe comment_def) l = None) ->
+  dcore cm = dcore comment_def -> (forall d0, nth 1 (s_dblocks s) d0 = cm) ->
+  dblock_body fuel doc 1 cm m_copen (content ++ cclose :: rest) s = Ok (([], rest), s).
+Proof.
+  intros Hq Hc Hcm Hnth. pose proof Hq as (Hd & Hr & Hqt & Hp & Ho).
+  destruct comment_facts as (_ & _ & _ & _ & Fg & _ & _ & _ & _ & _ & _ & Fclose).
+  destruct (comment_facts_of cm Hcm) as (Fname & Fverify & Fdelim & Fexp & Fre & Fcl).
   unfold dblock_body. rewrite Fdelim. unfold bind at 1. cbn [ret].
   unfold bind at 1. unfold gets at 1.
-  assert (Hn1 : nth 1 (s_dblocks s) comment_def = comment_def) by (rewrite Hd; reflexivity). rewrite Hn1.
+  rewrite (Hnth cm). rewrite Fcl.
   rewrite (readTo_closer _ cclose Fg Fclose content rest Hc).
   unfold bind at 1. cbn [andb ret tl app].
-  unfold bind at 1. unfold gets at 1. rewrite Hn1, Fexp, Ho.
+  unfold bind at 1. unfold gets at 1. rewrite (Hnth cm), Fexp, Ho.
   unfold expand_merge, expand_none. cbn [e_macros e_container e_skip e_spans e_specials truthy].
   unfold bind at 1. cbn [ret bind modify]. f_equal. f_equal. destruct s; cbn in *; subst; reflexivity.
 Qed.
@@ -327,7 +352,7 @@ Theorem comment_block_document n content s : quiet_default s ->
   doc_loop fuel doc (S (S n)) (copen :: content ++ [cclose]) s = Ok ([], s).
 Proof.
   intros Hq Hc. pose proof Hq as (Hd & _).
-  destruct comment_facts as (Fname & Fverify & _ & _ & _ & Fsplit & Flen & Fl & Fli & Fbefore & Fmatch & _).
+  destruct comment_facts as (_ & _ & _ & _ & _ & _ & _ & Fl & Fli & Fbefore & Fmatch & _).
   rewrite (TableFacts.doc_loop_delimited_block fuel doc (S n) (copen :: content ++ [cclose]) copen (content ++ [cclose])
              (copen :: content ++ [cclose]) (copen :: content ++ [cclose]) [] [] s s s s).
   - rewrite (TableFacts.doc_loop_blank_only fuel doc n [] s) by reflexivity. reflexivity.
@@ -335,17 +360,18 @@ Proof.
   - unfold lineblocks_render. apply lineblocks_loop_none_rest. exact (none_of (fun d => re_search (l_re d) copen) _ Fl).
   - unfold lists_render, bind, matchItem. rewrite matchItem_loop_none_rest; [reflexivity|].
     exact (none_of (fun d => re_search (li_re d) copen) _ Fli).
-  - unfold dblocks_render. unfold bind at 1. unfold gets at 1.
-    assert (Elen : length (s_dblocks s) = 9%nat) by (rewrite Hd; reflexivity). rewrite Elen.
-    pose proof (dblock_loop_skip_rest fuel doc copen (content ++ [cclose]) s before_comment [] (comment_def :: skipn 2 dblocks_default) 8) as Sk.
-    cbn [length app] in Sk. rewrite Flen in Sk. change (1 + 8)%nat with 9%nat in Sk. change (0 + 1)%nat with 1%nat in Sk.
-    rewrite Sk; [|rewrite Hd; exact Fsplit|exact (none_of (fun d => re_search (d_openRe d) copen) _ Fbefore)].
-    change 8%nat with (S 7). rewrite dblock_loop_unfold. unfold bind at 1. unfold gets at 1.
-    assert (En : nth_error (s_dblocks s) 1 = Some comment_def) by (rewrite Hd; reflexivity).
-    rewrite En. cbn [andb]. rewrite Fmatch.
-    unfold grp0, grp_s, grp. cbn [nth m_groups m_copen]. unfold copen. change ($"/*") with (47 :: 42 :: @nil char).
-    rewrite Fname. replace (str_eqb $"comment" $"paragraph") with false by reflexivity.
-    replace (47 =? 92) with false by reflexivity. unfold db_verify. rewrite Fverify. cbn [negb].
-    unfold bind at 1. rewrite (dblock_body_comment content [] s Hq Hc). reflexivity.
+  - unfold dblocks_render. unfold bind at 1. unfold gets at 1. rewrite (std_length _ Hd).
+    destruct (std_at (s_dblocks s) 1 dummy_ddef Hd ltac:(lia)) as (pre & cm & post & Esplit & Lpre & Hcm & En & Hnth & Hpre).
+    fold comment_def in Hcm. destruct (comment_facts_of cm Hcm) as (Fname & Fverify & _ & _ & Fre & _).
+    pose proof (dblock_loop_skip_rest fuel doc copen (content ++ [cclose]) s pre [] (cm :: post) 8) as Sk.
+    cbn [length app] in Sk. rewrite Lpre in Sk. change (1 + 8)%nat with 9%nat in Sk. change (0 + 1)%nat with 1%nat in Sk.
+    rewrite Sk; [|exact Esplit|].
+    + change 8%nat with (S 7). rewrite dblock_loop_unfold. unfold bind at 1. unfold gets at 1.
+      rewrite En. cbn [andb]. rewrite Fre, Fmatch.
+      unfold grp0, grp_s, grp. cbn [nth m_groups m_copen]. unfold copen. change ($"/*") with (47 :: 42 :: @nil char).
+      rewrite Fname. replace (str_eqb $"comment" $"paragraph") with false by reflexivity.
+      replace (47 =? 92) with false by reflexivity. unfold db_verify. rewrite Fverify. cbn [negb].
+      unfold bind at 1. rewrite (dblock_body_comment content [] s cm Hq Hc Hcm Hnth). reflexivity.
+    + intros d Hdin. destruct (Hpre d Hdin) as (d' & Hd' & -> & _). exact (none_of (fun d => re_search (d_openRe d) copen) _ Fbefore d' Hd').
 Qed.
 End Comment.
